@@ -200,6 +200,13 @@ func init() {
 				return []sdk.Msg{selfSend(wl)}
 			}
 			return msgs
+		case "deposit_rewards": // anybody may fund a validator's rewards pool, in any denomination: A = [validator, amount, denom]
+			d := arg(2)
+			if d == "0" {
+				d = BaseDenom
+			}
+			return []sdk.Msg{&distrtypes.MsgDepositValidatorRewardsPool{Depositor: wl.Bech32(), ValidatorAddress: val(arg(0)),
+				Amount: sdk.NewCoins(sdk.NewCoin(d, sdkmath.NewIntFromBigInt(relNum(arg(1), new(big.Int), "_"))))}}
 		case "noop":
 			return []sdk.Msg{selfSend(wl)}
 		}
@@ -684,6 +691,11 @@ func genC11(rng *rand.Rand, seed uint64, tier string) *Script {
 				ops = append(ops, so)
 				continue
 			case k < 94: // native staking traffic from the same accounts, on both chains
+				if rng.IntN(4) == 0 {
+					// rewards in a second denomination (and more of the first): whole units for every delegator
+					ops = append(ops, Op{K: "msg", W: w, Mut: "stk_native", Note: "deposit_rewards", A: []string{val(), pick(rng, "5000000000000000000000", "70000000"), pick(rng, "utwo", "utwo", BaseDenom)}, Price: c11Price, Gas: "3000000"})
+					continue
+				}
 				ops = append(ops, Op{K: "msg", W: w, Mut: "stk_native", Note: pick(rng, "delegate", "undelegate", "withdrawReward"), A: []string{val(), pick(rng, "1000", "50")}, Price: c11Price, Gas: "3000000"})
 				continue
 			default:
